@@ -234,6 +234,12 @@ func (zns *ZnPMServer) readNamedPipe(pipe *pipe) {
 		log.Fatal("[PARENT] Open named pipe file error:", err)
 		return
 	}
+	// keep one write end open in the master itself: when every worker has exited (the only
+	// worker timed out, or all of them at once) the pipe would have no writer left, the next
+	// read would return EOF and the master would stop instead of replacing the workers
+	if keepAlive, err := OpenNamedPipeWriter(pipe); err == nil {
+		defer keepAlive.Close()
+	}
 
 	var buf = make([]byte, 5)
 	for {
